@@ -3,6 +3,7 @@
 package slip
 
 import (
+	"sort"
 	"strconv"
 )
 
@@ -103,14 +104,14 @@ func (obj HashTable) LoadForm() Object {
 		Symbol("let"),
 		List{List{tsym, List{Symbol("make-hash-table")}}},
 	}
+	// Keys and values are data. The entries are sorted so the same table
+	// always gives the same form.
+	sets := make(List, 0, len(obj))
 	for k, v := range obj {
-		switch k.(type) {
-		case Symbol:
-			form = append(form, List{Symbol("setf"), List{Symbol("gethash"), List{quoteSymbol, k}, tsym}, v})
-		case String, Number, nil:
-			form = append(form, List{Symbol("setf"), List{Symbol("gethash"), k, tsym}, v})
-		}
+		sets = append(sets, List{Symbol("setf"), List{Symbol("gethash"), dataLoadForm(k), tsym}, dataLoadForm(v)})
 	}
+	sort.Slice(sets, func(i, j int) bool { return ObjectString(sets[i]) < ObjectString(sets[j]) })
+	form = append(form, sets...)
 	form = append(form, Symbol("table"))
 
 	return form
